@@ -107,6 +107,10 @@ def global_rewrites(text, fired):
     text = replace_macro(text, 'assert', lambda inner: 'rt_assert(' + split_top_commas(inner)[0].strip() + ')', fired, 'R1:assert!->rt_assert')
     text = replace_macro(text, 'panic', lambda inner: 'rt_panic()', fired, 'R1:panic!->rt_panic')
     text = replace_macro(text, 'format', lambda inner: 'opaque_string()', fired, 'R2:format!->opaque_string')
+    for a, b in (('&mut dyn Storage', '&mut Storage'), ('&dyn Storage', '&Storage')):
+        if a in text:
+            fired.append('R5:%s->%s' % (a, b))
+            text = text.replace(a, b)
     # .unwrap() / .expect("..") -> .rt_unwrap()
     mask = rs.code_mask(text)
     out = []
